@@ -6,6 +6,11 @@ ROOT = os.path.dirname(os.path.abspath(__file__))
 BASE_NOTE = "Trusted base: the harness's own reference model/oracle for this property (written from GitHub's documentation, not from actionlint's code), pgregory.net/rapid v1.3.0, the Go toolchain. 'Held' means held on every generated case; absence of violations outside the explored region is not established."
 
 CHECKS = {
+ "C02": dict(
+   technique="rapid-generated collision templates, random workflows with seeded errors and references, repository test data and multi-file worlds; repeat relation: R fresh lints under GOMAXPROCS 1/2/4/16 must give byte-identical output and error sequences",
+   text="Repeat relation over generated cases built to offer several candidates or several diagnostics at one position (format placeholders, missing inputs of actions and reusable workflows, runner label conflicts, several needs cycles, broken local action used by several jobs/files, references to every defined entity from every position); each case is linted 16 (48) times with fresh linters under varying GOMAXPROCS; every run re-randomises map iteration, so an order dependence survives with probability 2^-(R-1).",
+   note="Trusted base: Go's per-range map randomisation and scheduler as the source of schedule variety; goroutine interleavings inside one LintFiles run are sampled (GOMAXPROCS, repetition), not enumerated. " + BASE_NOTE,
+   design="DESIGN.md section 5, C02"),
  "C03": dict(
    technique="rapid-generated clean workflows from an independent workflow-syntax model; exhaustive per-workflow enumeration of scalar leaves x malformed placeholder forms; expectation (diagnostic at the scalar, syntax kind for template leaves) derived from the model",
    text="For every generated clean workflow (all sections including rare and expression-valued forms, random layout/quoting) every scalar value leaf is replaced in turn by each malformed ${{ }} form and the linter must report at that scalar (an expression syntax error where the model says the value is a template). The model, not actionlint, decides which leaves exist and which are templates.",
@@ -22,6 +27,10 @@ CHECKS = {
    technique="rapid metamorphic testing: (typing environment, expression, loosening) triples; accepted under the environment => accepted under the loosened one; plus clean-workflow variant with fromJSON-defined matrix parts",
    text="Metamorphic relation over generated typing environments and expressions: every expression accepted by the semantic checker must still be accepted after one type occurrence is replaced by any or a closed object is opened; the same relation is checked end to end on generated clean workflows whose matrix row/include/whole matrix is replaced by an expression.",
    design="DESIGN.md section 5, C06"),
+ "C07": dict(
+   technique="rapid-generated workflows rendered by a position-recording YAML emitter: (a) planted constructs with known offending token position, (b) metamorphic shift relation between two layouts of one tree and inserted top lines on repository test data, (c) bounds invariant",
+   text="The harness writes the YAML itself and records line/column of every key and scalar, so expected positions are independent of yaml.v3 and actionlint: planted lexer/parser/semantic/key/value/glob constructs must be reported exactly at the recorded token; every diagnostic of a workflow with seeded errors must move with its token between two random layouts; all diagnostics lie inside the file.",
+   design="DESIGN.md section 5, C07"),
  "C11": dict(
    technique="rapid grammar-based generation of access chains over the documented untrusted paths and trusted relatives, in all spellings and embeddings; differential against a stateless top-down taint model over the harness's reference AST; positions checked through the linter",
    text="Expressions built from the documented untrusted paths (and trusted siblings/prefixes/extensions) with random per-segment spelling, array index/filter forms and embeddings are checked at the semantic-checker level and through the linter in script and non-script positions; the reported path sets and columns must equal those computed by an independent taint model on the harness's own parse tree.",
@@ -42,6 +51,10 @@ CHECKS = {
    technique="exhaustive enumeration of small needs graphs + rapid random graphs against a reference graph model (Kahn cyclicity, case-folded resolution); printed cycle validated edge by edge",
    text="Generated-input search with an explicit reference model: every needs graph up to 3 jobs with ordered/duplicated/dangling entries, every edge set on 4 jobs (5 in the thorough tier), and random graphs with 6-30 jobs are linted and compared with a reference graph algorithm (dangling set, cyclic iff exactly one report, printed path is a real simple cycle).",
    design="DESIGN.md section 5, C18"),
+ "C19": dict(
+   technique="rapid generation of matrix value trees from a small pool with derived (equal / subset / superset / changed / permuted) values; reference model for duplicate and exclude verdicts with exact positions; permutation metamorphic relation",
+   text="Matrices with nested scalar/sequence/mapping values, include/exclude entries derived from row values and expression-defined parts are checked against a reference model (deep equality; subset/element-wise/equality containment over row values plus include assignments) with exact report positions, and re-rendered under random permutations of rows, values, members and entries, which must not change the number of reports of each class.",
+   design="DESIGN.md section 5, C19"),
 }
 
 NOT_YET = {}
